@@ -34,7 +34,8 @@ package c15
 //   - HTML: the whole list (all depths) is printed with the kind of the ROOT <ul>/<ol>
 //     (HTMLNestedKindFollowsRoot). Rows are printed with one Markdown cell per <td>/<th>, colspan
 //     and rowspan are not expanded. HTML forbids a rowspan leaving its row group, so if a first-row
-//     cell has RowSpan>1 all rows go into <tbody> (first row still <th>), otherwise row 0 is <thead>.
+//     cell has RowSpan>1 all rows go into <tbody> (first row still <th>), otherwise row 0 is <thead>
+//     (the default spelling; Block.Head chooses others, see Head and htmlTable).
 
 import (
 	"fmt"
@@ -63,6 +64,42 @@ type Block struct {
 	Text  string // heading / paragraph text (single line)
 	Items []Item
 	Rows  [][]Cell
+	Head  Head // table: which rows / cells the source marks as header
+}
+
+// Head says which part of an authored table the source marks as its header. The zero value is the
+// spelling the writers had before the field existed (HTML: row 0 in <thead> with <th> cells, no
+// marking elsewhere). A header marking never changes what the table IS: the same rows x columns of
+// cell texts; a pipe table can show one header line only, the other rows are ordinary rows.
+//
+//   - HTML: Rows leading rows are header rows. Via 0: inside <thead>, cells <th>; Via 1: inside
+//     <thead>, cells <td>; Via 2: no <thead>, all rows in one <tbody>, header rows made of <th>; Via 3:
+//     bare <tr> children of <table> (the parser supplies the tbody), header rows made of <th>. RowHead:
+//     the first cell of every body row is <th scope="row">. Foot: the last row is in <tfoot>.
+//     A rowspan may not leave its row group (HTML 4.9.11), so WriteHTML falls back to Via 2 when a
+//     vertical merge crosses the thead / tfoot boundary.
+//   - DOCX: the Rows leading rows carry <w:trPr><w:tblHeader/></w:trPr> (ECMA-376 17.4.49, "repeat as
+//     header row": only meaningful on a leading run of rows).
+//   - ODT: the Rows leading rows are wrapped in <table:table-header-rows> (ODF 1.2 part 1, 9.2.2);
+//     Via 1 additionally wraps the remaining rows in <table:table-rows> (9.2.5).
+//   - PPTX: a:tblPr firstRow="1" iff Rows >= 1 (DrawingML has no multi-row header).
+type Head struct {
+	Set     bool
+	Rows    int
+	Via     int
+	RowHead bool
+	Foot    bool
+}
+
+// HeadVias is the number of spellings of a table header the writer of the format has.
+func HeadVias(format string) int {
+	switch format {
+	case "html":
+		return 4
+	case "odt":
+		return 2
+	}
+	return 1
 }
 
 // MaxSourceLevel is the deepest heading level the format can express: WordprocessingML has the
@@ -96,6 +133,7 @@ func HeadingVias(format string) int {
 type Doc struct {
 	Title, Author string
 	Blocks        []Block
+	Breaks        []int // indices of the blocks that begin a new page (paged sources only: ragdocs.go)
 }
 
 // ODTNestedKindFollowsRoot: tabula/odt ignores text:style-name on nested lists (see top comment).
@@ -225,8 +263,11 @@ func WriteDOCX(d Doc) []byte {
 			lists++
 		case "table":
 			b.WriteString(`<w:tbl><w:tblPr><w:tblW w:w="0" w:type="auto"/></w:tblPr><w:tblGrid>` + strings.Repeat(`<w:gridCol w:w="2000"/>`, gridCols(bl.Rows)) + `</w:tblGrid>`)
-			for _, row := range bl.Rows {
+			for ri, row := range bl.Rows {
 				b.WriteString(`<w:tr>`)
+				if bl.Head.Set && ri < bl.Head.Rows {
+					b.WriteString(`<w:trPr><w:tblHeader/></w:trPr>`)
+				}
 				for _, c := range row {
 					fmt.Fprintf(&b, `<w:tc><w:tcPr><w:tcW w:w="%d" w:type="dxa"/>`, 2000*span(c))
 					if span(c) > 1 {
@@ -461,7 +502,17 @@ func WriteODT(d Doc) []byte {
 		case "table":
 			tables++
 			fmt.Fprintf(&b, `<table:table table:name="Table%d"><table:table-column table:number-columns-repeated="%d"/>`, tables, gridCols(bl.Rows))
-			for _, row := range bl.Rows {
+			hdr := 0
+			if bl.Head.Set {
+				hdr = min(bl.Head.Rows, len(bl.Rows))
+			}
+			for ri, row := range bl.Rows {
+				if hdr > 0 && ri == 0 {
+					b.WriteString(`<table:table-header-rows>`)
+				}
+				if hdr > 0 && ri == hdr && bl.Head.Via == 1 {
+					b.WriteString(`<table:table-rows>`)
+				}
 				b.WriteString(`<table:table-row>`)
 				for _, c := range row {
 					if c.VCont {
@@ -482,6 +533,12 @@ func WriteODT(d Doc) []byte {
 					b.WriteString(`</table:table-cell>` + strings.Repeat(`<table:covered-table-cell/>`, span(c)-1))
 				}
 				b.WriteString(`</table:table-row>`)
+				if hdr > 0 && ri == hdr-1 {
+					b.WriteString(`</table:table-header-rows>`)
+				}
+				if hdr > 0 && hdr < len(bl.Rows) && ri == len(bl.Rows)-1 && bl.Head.Via == 1 {
+					b.WriteString(`</table:table-rows>`)
+				}
 			}
 			b.WriteString(`</table:table>`)
 		}
@@ -548,14 +605,18 @@ func (s *pptxSlide) flushBody() {
 	}
 }
 
-func (s *pptxSlide) table(rows [][]Cell) {
+func (s *pptxSlide) table(rows [][]Cell, head Head) {
 	s.flushBody()
+	firstRow := 1
+	if head.Set && head.Rows == 0 {
+		firstRow = 0
+	}
 	s.nextID++
 	n := gridCols(rows)
 	const colW, rowH = 1500000, 370840
 	fmt.Fprintf(&s.shapes, `<p:graphicFrame><p:nvGraphicFramePr><p:cNvPr id="%d" name="Table %d"/><p:cNvGraphicFramePr><a:graphicFrameLocks noGrp="1"/></p:cNvGraphicFramePr><p:nvPr/></p:nvGraphicFramePr>`+
-		`<p:xfrm><a:off x="457200" y="1600200"/><a:ext cx="%d" cy="%d"/></p:xfrm><a:graphic><a:graphicData uri="http://schemas.openxmlformats.org/drawingml/2006/table"><a:tbl><a:tblPr firstRow="1"/><a:tblGrid>%s</a:tblGrid>`,
-		s.nextID, s.nextID-1, colW*n, rowH*len(rows), strings.Repeat(fmt.Sprintf(`<a:gridCol w="%d"/>`, colW), n))
+		`<p:xfrm><a:off x="457200" y="1600200"/><a:ext cx="%d" cy="%d"/></p:xfrm><a:graphic><a:graphicData uri="http://schemas.openxmlformats.org/drawingml/2006/table"><a:tbl><a:tblPr firstRow="%d"/><a:tblGrid>%s</a:tblGrid>`,
+		s.nextID, s.nextID-1, colW*n, rowH*len(rows), firstRow, strings.Repeat(fmt.Sprintf(`<a:gridCol w="%d"/>`, colW), n))
 	const empty = `<a:txBody><a:bodyPr/><a:lstStyle/><a:p/></a:txBody><a:tcPr/></a:tc>`
 	for _, row := range rows {
 		fmt.Fprintf(&s.shapes, `<a:tr h="%d">`, rowH)
@@ -614,7 +675,7 @@ func WritePPTX(d Doc) []byte {
 				cur().body = append(cur().body, aPara(fmt.Sprintf(`<a:pPr lvl="%d">%s</a:pPr>`, it.Depth, bu), it.Text))
 			}
 		case "table":
-			cur().table(bl.Rows)
+			cur().table(bl.Rows, bl.Head)
 		}
 	}
 	cur()
@@ -665,50 +726,88 @@ func WriteHTML(d Doc) []byte {
 				return "</" + t + ">"
 			}, func(text string) string { return "<li>" + htmlEsc(text) }, "</li>") + "\n")
 		case "table":
-			head := len(bl.Rows) > 0
-			if head {
-				for _, c := range bl.Rows[0] {
-					head = head && c.RowSpan <= 1
-				}
-			}
-			b.WriteString("<table>")
-			for i, row := range bl.Rows {
-				el := "td"
-				switch {
-				case i == 0 && head:
-					b.WriteString("<thead>")
-					el = "th"
-				case i == 0:
-					b.WriteString("<tbody>")
-					el = "th"
-				case i == 1 && head:
-					b.WriteString("<tbody>")
-				}
-				b.WriteString("<tr>")
-				for _, c := range row {
-					if c.VCont {
-						continue
-					}
-					b.WriteString("<" + el)
-					if span(c) > 1 {
-						fmt.Fprintf(&b, ` colspan="%d"`, span(c))
-					}
-					if c.RowSpan > 1 {
-						fmt.Fprintf(&b, ` rowspan="%d"`, c.RowSpan)
-					}
-					b.WriteString(">" + strings.ReplaceAll(htmlEsc(c.Text), "\n", "<br>") + "</" + el + ">")
-				}
-				b.WriteString("</tr>")
-				switch {
-				case i == 0 && head:
-					b.WriteString("</thead>")
-				case i == len(bl.Rows)-1:
-					b.WriteString("</tbody>")
-				}
-			}
-			b.WriteString("</table>\n")
+			b.WriteString(htmlTable(bl))
 		}
 	}
 	b.WriteString("</body></html>\n")
 	return []byte(b.String())
+}
+
+// htmlTable writes one table with the header spelling of bl.Head (see Head).
+func htmlTable(bl Block) string {
+	rows, h := bl.Rows, bl.Head
+	if !h.Set {
+		h = Head{Set: true, Rows: 1} // the spelling of the writer before Head existed
+	}
+	k := min(max(h.Rows, 0), len(rows))
+	crosses := func(at int) bool { // a cell of row `at` continues a vertical merge from the row above
+		if at <= 0 || at >= len(rows) {
+			return false
+		}
+		for _, c := range rows[at] {
+			if c.VCont {
+				return true
+			}
+		}
+		return false
+	}
+	via := h.Via
+	if via <= 1 && crosses(k) {
+		via = 2 // a rowspan may not leave its row group
+	}
+	foot := 0 // rows in <tfoot>
+	if h.Foot && via <= 2 && len(rows)-k >= 2 && !crosses(len(rows)-1) {
+		foot = 1
+	}
+	var b strings.Builder
+	b.WriteString("<table>")
+	open := ""
+	group := func(name string) {
+		if open == name {
+			return
+		}
+		if open != "" {
+			b.WriteString("</" + open + ">")
+		}
+		if name != "" {
+			b.WriteString("<" + name + ">")
+		}
+		open = name
+	}
+	for i, row := range rows {
+		switch {
+		case via == 3:
+		case via <= 1 && i < k:
+			group("thead")
+		case foot > 0 && i >= len(rows)-foot:
+			group("tfoot")
+		default:
+			group("tbody")
+		}
+		b.WriteString("<tr>")
+		for j, c := range row {
+			if c.VCont {
+				continue
+			}
+			el, attr := "td", ""
+			if i < k && via != 1 {
+				el = "th"
+			}
+			if i >= k && h.RowHead && j == 0 {
+				el, attr = "th", ` scope="row"`
+			}
+			b.WriteString("<" + el + attr)
+			if span(c) > 1 {
+				fmt.Fprintf(&b, ` colspan="%d"`, span(c))
+			}
+			if c.RowSpan > 1 {
+				fmt.Fprintf(&b, ` rowspan="%d"`, c.RowSpan)
+			}
+			b.WriteString(">" + strings.ReplaceAll(htmlEsc(c.Text), "\n", "<br>") + "</" + el + ">")
+		}
+		b.WriteString("</tr>")
+	}
+	group("")
+	b.WriteString("</table>\n")
+	return b.String()
 }
